@@ -6,6 +6,9 @@ SEQ-route: item streams (deliveries with bodies of 0..3 frames, returned message
 SEQ-assembly: the real `_build_message*` driven single-threaded over a logging deque, the reader's
            appends injected at arbitrary points (between calls and from inside the body loop's
            sleep); every append/pop is replayed through the Lean transition system `Deliver.step`.
+SEQ-loop: the real `start_consuming` with the reader's actions (deliveries, broker- and application-side
+           cancels, added consumers) injected in every window between its looks at the consumer tags and its
+           drains; the same script drives the Lean loop model `ConsumeLoop` (program regenerated from the source).
 COSIM: real reader + consuming thread (callback consumption via start_consuming or the
            build_inbound_messages generator) + threads doing RPCs and unroutable mandatory publishes
            on the same channel, deliveries on 1..2 channels, under random schedules.
@@ -13,6 +16,7 @@ Monitor (independent): the messages the application received vs the reference br
 ledger for that channel: same count, order, consumer tag, delivery tag, body bytes, properties.
 """
 import collections
+import json
 import random
 import types
 
@@ -238,6 +242,152 @@ def seq_assembly(rep, rng, lines, expect):
 
 
 # ------------------------------------------------------------------------------------------ COSIM
+
+# ------------------------------------------------------------------------------------------------
+# SEQ-loop: the real start_consuming with the reader's actions injected between its observable events
+# ------------------------------------------------------------------------------------------------
+def run_real_loop(ntags, plan, max_events=40):
+    """plan: {event index: [('d', m) | ('x',) | ('a',)]}: the reader (and other threads) run these actions
+    immediately before the consuming thread's k-th observable event (a look at the consumer tags outside the
+    drain, or the drain itself).  -> (events 'R'/'D' list, handed ids, queued ids, tags left, returned?, exc)"""
+    import amqpstorm
+    from amqpstorm.channel import Channel
+    st = {'events': [], 'in_drain': False, 'handed': [], 'next_tag': ntags, 'overrun': False}
+
+    class ProbeChannel(Channel):
+        @property
+        def consumer_tags(self):
+            if not st['in_drain'] and st.get('armed'):
+                before('R')
+            return self._consumer_tags
+
+        def process_data_events(self, *a, **kw):
+            if st.get('armed'):
+                before('D')
+            st['in_drain'] = True
+            try:
+                return Channel.process_data_events(self, *a, **kw)
+            finally:
+                st['in_drain'] = False
+
+    conn = amqpstorm.Connection('localhost', 'guest', 'guest', lazy=True)
+    conn.set_state(conn.OPEN)
+    conn.write_frame = lambda cid, fr: None
+    conn.write_frames = lambda cid, frs: None
+    ch = ProbeChannel(1, conn, 1)
+    ch.set_state(ch.OPEN)
+    conn._channels[1] = ch
+
+    def cb(m):
+        st['handed'].append(m.method['delivery_tag'])
+    for i in range(ntags):
+        ch._consumer_callbacks['c%d' % i] = cb
+        ch.add_consumer_tag('c%d' % i)
+
+    def before(kind):
+        k = len(st['events'])
+        if k >= max_events:
+            st['overrun'] = True
+            del ch._consumer_tags[:]          # safety net: never loop for ever on a broken tree
+        for act in plan.get(k, []):
+            if act[0] == 'd':
+                tag = ch._consumer_tags[0]
+                ch.on_frame(spec.Basic.Deliver(consumer_tag=tag, delivery_tag=act[1]))
+                ch.on_frame(pheader.ContentHeader(body_size=2, properties=spec.Basic.Properties()))
+                ch.on_frame(pbody.ContentBody(b'ok'))
+            elif act[0] == 'x':
+                if act[1] == 'broker':
+                    ch.on_frame(spec.Basic.Cancel(consumer_tag=ch._consumer_tags[-1]))   # broker-initiated
+                else:
+                    ch.remove_consumer_tag(ch._consumer_tags[-1])                         # what basic.cancel does after CancelOk
+            elif act[0] == 'a':
+                t = 'c%d' % st['next_tag']
+                st['next_tag'] += 1
+                ch._consumer_callbacks[t] = cb
+                ch.add_consumer_tag(t)
+        st['events'].append(kind)
+
+    import amqpstorm.channel as chmod
+    saved = chmod.time
+    chmod.time = types.SimpleNamespace(sleep=lambda s: None, time=saved.time)
+    exc = None
+    st['armed'] = True
+    try:
+        ch.start_consuming()
+    except Exception as why:   # noqa
+        exc = repr(why)
+    finally:
+        st['armed'] = False
+        chmod.time = saved
+    queued = [f.delivery_tag for f in ch._inbound if getattr(f, 'name', '') == 'Basic.Deliver']
+    return st['events'], st['handed'], queued, len(ch._consumer_tags), exc, st['overrun']
+
+
+def seq_loop(rep, rng, lines, expect, fixed=None):
+    """one scripted race between the reader and start_consuming; the same script drives the Lean loop model"""
+    ntags = rng.choice([1, 1, 1, 2, 3])
+    horizon = rng.randint(1, 7)
+    plan, tags, mid = {}, ntags, 0
+    delivered = []
+    for k in range(horizon + 1):
+        acts = []
+        for _ in range(rng.choice([0, 0, 1, 1, 2, 3])):
+            if tags == 0:
+                break
+            kind = rng.choice('dddxxa') if k < horizon else 'x'
+            if kind == 'd':
+                mid += 1
+                acts.append(('d', mid))
+                delivered.append(mid)
+            elif kind == 'x':
+                acts.append(('x', rng.choice(['broker', 'app'])))
+                tags -= 1
+            else:
+                acts.append(('a',))
+                tags += 1
+        if k == horizon:
+            # the last window: a delivery right in front of the cancels that remove every consumer still there
+            if tags and rng.random() < 0.7:
+                mid += 1
+                acts.append(('d', mid))
+                delivered.append(mid)
+            acts += [('x', rng.choice(['broker', 'app']))] * tags
+            tags = 0
+        if acts:
+            plan[k] = acts
+    if fixed is not None:
+        ntags, plan = fixed
+        horizon = max(plan) if plan else 0
+        delivered = [a[1] for k in sorted(plan) for a in plan[k] if a[0] == 'd']
+    events, handed, queued, left, exc, overrun = run_real_loop(ntags, plan)
+    executed = []
+    toks = []
+    for k, ev in enumerate(events):
+        for a in plan.get(k, []):
+            toks.append('d%d' % a[1] if a[0] == 'd' else a[0])
+            executed.append(a)
+        toks.append(ev)
+    toks.append('E')
+    queued_by_reader = [a[1] for a in executed if a[0] == 'd']
+    replay = {'kind': 'loop', 'tags': ntags, 'plan': {str(k): v for k, v in plan.items()}}
+    key = ('loop', ntags, tuple(sorted((k, tuple(v)) for k, v in plan.items())))
+    rep.case(key, len(delivered) > 0, sample={'loop': replay['plan'], 'tags': ntags})
+    rep.count('loop_events', min(len(events), 12))
+    rep.count('loop_last_window', 'delivery-with-last-cancel' if plan.get(horizon) and any(a[0] == 'd' for a in plan[horizon]) else 'cancel-only')
+    # monitor (independent of the model): what the reader queued is handed over, in order, before the call returns
+    if exc is not None:
+        rep.violation('C03/loop-exception:%s' % exc.split('(')[0], 'start_consuming raised %s' % exc, replay)
+    elif overrun:
+        rep.violation('C03/loop-does-not-return', 'start_consuming still running after 40 iterations events with no consumer left', replay)
+    elif handed != queued_by_reader or queued:
+        rep.violation('C03/delivered-but-not-handed-over',
+                      'start_consuming returned with %d of %d deliveries handed over (%d still queued): the reader queued %r, callbacks got %r'
+                      % (len(handed), len(queued_by_reader), len(queued), queued_by_reader, handed), replay)
+    lines.append('c03.loopev %d %s' % (ntags, ','.join(toks)))
+    csv = lambda l: ','.join(str(x) for x in l) or '-'   # noqa
+    expect.append('done=%d handed=%s inbound=%s tags=%d' % (1 if exc is None and not overrun else 0, csv(handed), csv(queued), left))
+
+
 def cosim_one(args):
     sc, seed = args
     import amqpstorm
@@ -397,6 +547,11 @@ def check(rep):
         seq_route(rep, rng, lines, expect)
     for _ in range(400 if not thorough else 6000):
         seq_assembly(rep, rng, lines, expect)
+    for path in sorted((common.CORPUS / 'C03').glob('loop-*.json')) if (common.CORPUS / 'C03').exists() else []:
+        d = json.loads(path.read_text())
+        seq_loop(rep, rng, lines, expect, fixed=(d['tags'], {int(k): [tuple(a) for a in v] for k, v in d['plan'].items()}))
+    for _ in range(600 if not thorough else 10000):
+        seq_loop(rep, rng, lines, expect)
     jobs = []
     for _ in range(60 if not thorough else 1500):
         jobs.append(({'nchan': rng.randint(1, 2), 'mode': rng.choice(['callback', 'generator']), 'messages': rng.randint(4, 14),
@@ -444,6 +599,11 @@ def replay(data):
         out = cosim_one((r['scenario'], r['seed']))
         print(out)
         bad = bool(out['problems']) or bool(out['thread_excs'])
+    elif r['kind'] == 'loop':
+        plan = {int(k): [tuple(a) for a in v] for k, v in r['plan'].items()}
+        events, handed, queued, left, exc, overrun = run_real_loop(r['tags'], plan)
+        print('events', events, 'handed', handed, 'still queued', queued, 'tags left', left, 'exception', exc)
+        bad = bool(queued) or exc is not None or overrun
     else:
         print('sequential case: %r' % (r,))
         bad = True
